@@ -440,7 +440,11 @@ def arange(start=None, /, stop=None, step=1, *, chunks="auto", like=None, dtype=
         r = arange(0, stop - start, step, chunks=chunks, dtype=dtype, like=like)
         return r + start
 
-    num = int(max(np.ceil((stop - start) / step), 0))
+    quot = (stop - start) / step
+    num = int(max(np.ceil(quot), 0))
+    if quot == 0 and stop != start and not np.signbit(quot):
+        # the quotient underflowed (or step is infinite): like NumPy, one element
+        num = 1
 
     meta = meta_from_array(like) if like is not None else None
 
